@@ -405,9 +405,9 @@ func TestC08(t *testing.T) {
 	ev.rapidProp(t, "leak", func(rt *rapid.T) {
 		// no .keyvalue(): its ids depend on the base object, which the filter changes (C16 covers ids)
 		g := &pgen{t: rt, c: GenCfg{MaxNodes: 10, HardErrPct: 10, NoKeyvalue: true}.withDefaults()}
-		g.budget = 2 + g.n(8, "size")
+		g.budget = 2 + g.n(sz(8), "size")
 		chain := g.chain(gctx{}, 1+g.n(3, "chainlen"))
-		g.budget = 2 + g.n(6, "csize")
+		g.budget = 2 + g.n(sz(6), "csize")
 		cond := Normalize(g.pred(gctx{inFilter: true}))
 		doc := GenDoc(rt, DocCfg{}, "doc")
 		usesVars := chain.Has(func(n *Node) bool { return n.K == KVar }) || cond.Has(func(n *Node) bool { return n.K == KVar })
